@@ -968,6 +968,9 @@ func (ex *Exec) index(st *State, e *ast.IndexExpr) *Val {
 	case *types.Slice:
 		i = ex.coerce(st, ex.materialize(i, tInt), tInt)
 		ex.safetyOb(st, "bounds", e.Pos(), and(ge(i.Term, intLit(0)), lt(i.Term, ex.sLen(x.Term))))
+		if x.Arr != nil {
+			return &Val{T: u.Elem(), Term: sel(x.Arr, ex.ix(ex.sOff(x.Term), i.Term))}
+		}
 		v := &Val{T: u.Elem(), Term: ex.sliceElem(st, x.Term, i.Term, u.Elem())}
 		ex.wf(st, v)
 		return v
